@@ -112,14 +112,27 @@ func (v *collator_[V]) GetMaximum() int {
 // Public
 
 func (v *collator_[V]) CompareValues(first V, second V) bool {
-	return v.compareValues(ref.ValueOf(first), ref.ValueOf(second))
+	return v.traversal().compareValues(ref.ValueOf(first), ref.ValueOf(second))
 }
 
 func (v *collator_[V]) RankValues(first V, second V) Rank {
-	return v.rankValues(ref.ValueOf(first), ref.ValueOf(second))
+	return v.traversal().rankValues(ref.ValueOf(first), ref.ValueOf(second))
 }
 
 // Private
+
+// NOTE:
+// A collator is shared freely: by all the sets derived from a set using the set
+// operations, by the sorters and by the collections that are given one.  Each
+// comparison therefore tracks its traversal depth in a private copy so that
+// neither concurrent comparisons nor a comparison abandoned by the "maximum
+// traversal depth" panic can disturb another one.
+func (v *collator_[V]) traversal() *collator_[V] {
+	return &collator_[V]{
+		class_:   v.class_,
+		maximum_: v.maximum_,
+	}
+}
 
 func (v *collator_[V]) compareArrays(first ref.Value, second ref.Value) bool {
 	// Check for maximum traversal depth.
